@@ -17,25 +17,25 @@ Definition tmatch (r : derr + zi) (o : tobs) : bool :=
   match r, o with inl a, TErr b => derr_eqb a b | inr x, TVal y => zi_eqb x y | _, _ => false end.
 Definition BSZ : nat := 100.
 (* (1) the full model on an operator tree *)
-Record tcase := { te : op (R:=zi); tn : nat; tdq : list (Z * alg * dobs); ttq : list (alg * tobs) }.
+Record tcase := { te : op (R:=zi); tn : nat; tdf : dflags; tdq : list (Z * alg * dobs); ttq : list (alg * tobs) }.
 Definition tag (t : nat) (l : list nat) : list (nat * nat) := map (fun i => (t, i)) l.
 (* failing entries as (kind, index): 0 shape, 1 diag query, 2 trace query, 3 value query (dense), 4 class query (dense) *)
 Definition tbad (c : tcase) : list (nat * nat) :=
   (if Nat.eqb (fst (shape (te c))) (tn c) && Nat.eqb (snd (shape (te c))) (tn c) then [] else [(0, 0)%nat]) ++
-  tag 1 (failing (fun q : Z * alg * dobs => dmatch (diag_rule BSZ (snd (fst q)) (te c) (fst (fst q))) (snd q)) 0 (tdq c)) ++
-  tag 2 (failing (fun q : alg * tobs => tmatch (trace_rule BSZ (fst q) (te c)) (snd q)) 0 (ttq c)).
+  tag 1 (failing (fun q : Z * alg * dobs => dmatch (diag_rule (tdf c) BSZ (snd (fst q)) (te c) (fst (fst q))) (snd q)) 0 (tdq c)) ++
+  tag 2 (failing (fun q : alg * tobs => tmatch (trace_rule (tdf c) BSZ (fst q) (te c)) (snd q)) 0 (ttq c)).
 Fixpoint tmism (i : nat) (cs : list tcase) : list (nat * list (nat * nat)) :=
   match cs with [] => [] | c :: r => match tbad c with [] => tmism (S i) r | b => (i, b) :: tmism (S i) r end end.
 Definition tcount (cs : list tcase) : nat := fold_right (fun c acc => (length (tdq c) + length (ttq c) + acc)%nat) 0%nat cs.
 (* (2) the index-level model on the dense matrix of a large operator whose diag goes through exact_diag:
        values on the sampled offsets, outcome class (raises / returns) on all offsets through `ragged` *)
-Record gcase := { gn : nat; gM : list (list zi); gdq : list (Z * dobs); gcls : list (Z * bool) }.
+Record gcase := { gn : nat; gfx : bool; gM : list (list zi); gdq : list (Z * dobs); gcls : list (Z * bool) }.
 Definition gbad (c : gcase) : list (nat * nat) :=
   let Mf : fm (R:=zi) := fun i j => nth j (nth i (gM c) []) zi0 in
   tag 3 (failing (fun q : Z * dobs =>
-             dmatch (match exact_diag BSZ (gn c) (mul_cols (gn c) Mf) (fst q) with Some d => inr d | None => inl DValue end) (snd q)
-             && Bool.eqb (ragged BSZ (gn c) (fst q)) (match snd q with DErr _ => true | _ => false end)) 0 (gdq c)) ++
-  tag 4 (failing (fun q : Z * bool => Bool.eqb (ragged BSZ (gn c) (fst q)) (snd q)) 0 (gcls c)).
+             dmatch (match exact_diag (gfx c) BSZ (gn c) (mul_cols (gn c) Mf) (fst q) with Some d => inr d | None => inl DValue end) (snd q)
+             && Bool.eqb (negb (gfx c) && ragged BSZ (gn c) (fst q)) (match snd q with DErr _ => true | _ => false end)) 0 (gdq c)) ++
+  tag 4 (failing (fun q : Z * bool => Bool.eqb (negb (gfx c) && ragged BSZ (gn c) (fst q)) (snd q)) 0 (gcls c)).
 Fixpoint gmism (i : nat) (cs : list gcase) : list (nat * list (nat * nat)) :=
   match cs with [] => [] | c :: r => match gbad c with [] => gmism (S i) r | b => (i, b) :: gmism (S i) r end end.
 Definition gcount (cs : list gcase) : nat := fold_right (fun c acc => (length (gdq c) + length (gcls c) + acc)%nat) 0%nat cs.
